@@ -1,3 +1,9 @@
-/-! # C08 — (stub: property theorems go here; see docs/BUILDING.md) -/
+import PtVerif.Proofs.Core
+/-! # C08 — atoms are unique per table (work in progress) -/
 namespace PtVerif.C08
+open PtCore
+
+theorem dict_get_set {κ ν : Type} [DecidableEq κ] (d : Dict κ ν) (k k' : κ) (v : ν) :
+    (d.set k v).get? k' = if k = k' then some v else d.get? k' := Dict.get?_set d k k' v
+
 end PtVerif.C08
